@@ -200,6 +200,11 @@ func checkC01(rc *RunCtx) *Report {
 			}
 			x.Run()
 			cands.resolve(x, rep, sc)
+			if n, diff := x.ValidateOnRealAtomix(envInt("VERIF_VALIDATE", 3)); diff != "" {
+				rep.HarnessErr = "trace validation on the real atomix runtime: " + diff
+			} else {
+				out.Numbers["traces_validated"] += int64(n)
+			}
 			out.Numbers["states"] += int64(x.States)
 			out.Numbers["transitions"] += int64(x.Transitions)
 			out.Numbers["idle_states"] += int64(x.IdleStates)
